@@ -205,12 +205,17 @@ func runC15(c *core.Ctx) {
 		}
 	}
 	// hand-written cases: nested variables, omitted variables with and without defaults, explicit nulls, custom scalars
-	hs := "type Query { g(x: Int = 5, l: [Int], o: In, any: Any, e: E = A): Int } input In { a: Int = 1 b: [Int] c: In } scalar Any enum E { A B } directive @dd(x: Int = 9, y: String) on FIELD"
+	hs := "type Query { g(x: Int = 5, l: [Int], o: In, any: Any, e: E = A, fl: Float, id: ID, fls: [Float], ids: [ID!]): Int } input In { a: Int = 1 b: [Int] c: In f: Float i: ID } scalar Any enum E { A B } directive @dd(x: Int = 9, y: String) on FIELD"
 	for _, q := range []string{
 		"query($v: Int = 7, $w: Int) { g(x: $v, l: [$v, $w, 3], o: {a: $w, b: [$v], c: {a: $v}}) }",
 		"query($v: Int = 7) { g(x: $v) }", "query($v: Int) { g(x: $v) a: g(l: [$v]) }", "{ g(any: {k: [1, \"s\", X, null, {z: 1.5}]}, x: null) }",
 		"{ g @dd g2: g @dd(x: 1, y: \"s\") }", "query($a: Any) { g(any: $a) b: g(any: [$a]) }", "{ g(any: 99999999999999999999) }", "{ g(any: 1e999) }",
 		"query($e: E = B) { g(e: $e) }", "query($o: In = {b: [1]}) { g(o: $o) }",
+		// numeric literals beyond float64 / int64 at the built-in numeric and ID positions: rejected by
+		// validation on the unchanged tree; never a panic in ArgumentMap
+		"{ g(fl: 1e999) }", "{ g(id: 99999999999999999999) }", "{ g(fl: 99999999999999999999) }", "{ g(x: 99999999999) }", "{ g(fls: [1.5, 1e999]) }",
+		"{ g(ids: [1, 99999999999999999999]) }", "{ g(o: {f: 1e999}) }", "{ g(o: {i: 99999999999999999999}) }", "{ g @dd(x: 99999999999999999999) }",
+		"{ g(fl: 1.7976931348623157e308) }", "{ g(id: 9223372036854775807) }", "{ g(id: 9223372036854775808) }",
 	} {
 		for _, v := range []string{"{}", "{76=i01}", "{76=n}", "{76=i01,77=i02}", "{61=s78}", "{65=s41}", "{6f={61=i03}}"} {
 			cases = append(cases, cs{[]string{hs}, q, v})
